@@ -83,6 +83,16 @@ CLAIMED = {
             'it replaces). Bounds: name <= 4 (thorough 6) separators; root <= 1 (thorough 2) separators; cwd depth <= 1 (2). '
             'String-level property: symlinks and Windows ntpath are outside.',
             'DESIGN.md §6 C17'),
+    'C19': ('Data flow around uninterpreted primitives: the real hash_password/verify_password run on an opaque password of '
+            'symbolic length with os.urandom returning arbitrary bytes, SHA-256/scrypt as uninterpreted functions and base64 as an '
+            'invertible opaque encoding. Proven: the right password verifies and verify re-derives with exactly the salt and '
+            'parameters stored in the hash; another password verifies only if the KDF collides; each hash draws and embeds its own '
+            '16 fresh random bytes; for every hash string of 0..6 arbitrary fields the outcome is False, ValueError or TypeError, '
+            'and True only when the four fields decoded and the KDF comparison itself matched.',
+            'Trusted/assumed: everything cryptographic (SHA-256 and scrypt are uninterpreted; "every other password does not '
+            'verify" holds only under their collision freedom, which is assumed, not shown); the base64 and struct models; '
+            'sx engine. Timing and cost of attacker-chosen scrypt parameters are outside.',
+            'DESIGN.md §6 C19'),
 }
 
 NOT_YET = 'check not built yet in this round (planned: see DESIGN.md §6); not claimed'
